@@ -18,9 +18,13 @@ import re
 from . import bp_gen as G
 
 OWN = 'dtn://node/'
-# D20 (known finding): for these block types the bound payload class swallows surplus array items of the
-# canonical block instead of raising; for every other type the unchanged tree rejects them
-SURPLUS_TOLERATED_TYPES = (7,)
+# D20 (known finding): block types which have a payload class bound to them. There the bound class may swallow
+# surplus array items of the canonical block instead of raising — measured on the unchanged tree over 1 800
+# crafted heads: type 7 (Bundle Age) takes any number, type 10 (Hop Count) exactly two (they are read as its
+# two fields), type 6 none; 11 and 12 were not measured. Those acceptances are instances of the known finding.
+# For a block type with NO bound class (unassigned and private types) the unchanged tree rejects every surplus
+# item, so an acceptance there is something new (it is what a `post_dissect` that drops them would cause).
+SURPLUS_TOLERATED_TYPES = (6, 7, 10, 11, 12)
 
 
 class Rx(object):
